@@ -577,9 +577,13 @@ impl Gate {
                             cmd
                         );
                     }
-                    sender.send(cmd.clone()).await.expect(
-                        "Internal error: failed to notify cloned gate",
-                    );
+                    // The clone may be dropped between the is_closed()
+                    // check above and the completion of this send (which
+                    // can wait for queue space); that is a closed sender
+                    // like any other, not an internal error.
+                    if sender.send(cmd.clone()).await.is_err() {
+                        closed_sender_found = true;
+                    }
                 } else {
                     if log_enabled!(Level::Trace) {
                         let clone_txt = if self.is_clone() {
